@@ -156,11 +156,16 @@ def setRootObj (w : World) (k : Nat) (a : Obj) : OOut Unit :=
       | .ok _ g' => .ok () { w with g := g' }
       | .exc g' => .exc .bpp { w with g := g' }
 
-/-- `GlobalGraph::operator=` onto the observed graph (GlobalGraph.cpp:41-63, as repaired): the content
+/-- `GlobalGraph::operator=` onto the observed graph (GlobalGraph.cpp:41-67, as repaired): the content
 becomes that of `h`, the registered observers stay and are told that every former edge and node
 is gone (`notifyDeletedEdges(formerEdges); notifyDeletedNodes(formerNodes)`) -/
 def graphAssign (w : World) (h : G) : World :=
   ({ w with g := { h with pending := w.g.pending ++ [.edges w.g.allEdges, .nodes w.g.allNodes] } } : World).deliver
+
+/-- `notifyDeletedEdges` / `notifyDeletedNodes` (GlobalGraph.h:668/:674) are public: called directly, every
+registered observer forgets the objects of the named ids — whether or not they are still in the graph -/
+def notifyDirect (w : World) (ev : Event) : World :=
+  ({ w with g := { w.g with pending := w.g.pending ++ [ev] } } : World).deliver
 
 /-- `getRoot()` (:714): the object of the graph's root, null when it has none -/
 def rootObj (w : World) (o : Obs) : Option Obj := o.nodeFromGid w.g.root
@@ -184,6 +189,8 @@ inductive WOpX where
   | graphAssign (d : Bool) (hist : List Op)
   /-- `orientate()` called on the observed graph -/
   | orientate
+  /-- the public `notifyDeletedEdges(ids)` / `notifyDeletedNodes(ids)` called directly, with any ids -/
+  | notify (ev : Event)
 deriving Repr
 
 namespace World
@@ -195,6 +202,7 @@ def stepX (w : World) : WOpX → World
   | .setRoot k a => (w.setRootObj k a).world w
   | .graphAssign d hist => w.graphAssign { (Graph.empty d).run hist with pending := [] }
   | .orientate => (w.graphOp w.g.orientate).2
+  | .notify ev => w.notifyDirect ev
 
 def runX (w : World) (ops : List WOpX) : World := ops.foldl stepX w
 end World
